@@ -143,40 +143,93 @@ def _requires(node, token):
 
 
 def operators(prog, chk):
-    # term / factor
-    for name, ref in (("term", TERM_REF), ("factor", FACTOR_REF)):
-        f = _fn(prog, name)
-        arms = _arms_by_variant(prog.hir[f.id])
-        for tok, (op, operand) in ref.items():
-            a = arms.get(tok)
-            got_ops = {n["op"] for n in hirq.exprs(a, "AssignOp")} | {n["name"] for n in hirq.exprs(a, "MethodCall") if n["name"] in ("rem_euclid", "div_euclid", "powf")} | {n["op"] for n in hirq.exprs(a, "Binary") if n["op"] in ("Rem", "Add", "Sub", "Mul", "Div")} if a else set()
-            ok = a is not None and got_ops == {op} and operand in _called_fns(a) and "advance" in _called_fns(a)
-            chk.ob(ok, "A15.operator-wiring", f"{name}:{tok}", f.where(), f"token {tok} -> {op} with the right operand parsed by {operand}() after consuming the operator", f"token {tok} is wired to {sorted(got_ops)} / operand parser {sorted(_called_fns(a) & {'term', 'factor', 'primary', 'comparison'}) if a else None} (expected {op}, {operand})")
-        extra = sorted(set(arms) & {"Add", "Sub", "Mul", "Div", "Mod"} - set(ref))
-        chk.ob(not extra, "A15.operator-wiring", f"{name}:levels", f.where(), f"{name}() handles exactly {sorted(ref)}", f"{name}() also handles {extra} (precedence of those operators changed)")
-    # comparison
-    f = _fn(prog, "comparison")
-    arms = _arms_by_variant(prog.hir[f.id])
-    for v, op in CMP_REF.items():
-        a = arms.get(v)
-        got = [(n["op"], hirq.field_chain(n["l"]), hirq.field_chain(n["r"])) for n in hirq.exprs(a, "Binary")] if a else []
-        ok = len(got) == 1 and got[0] == (op, ["first"], ["second"])
-        chk.ob(ok, "A15.operator-wiring", f"comparison:{v}", f.where(), f"ComparisonOp::{v} -> `first {op} second`", f"ComparisonOp::{v} is wired to {got}")
-    casts = [n for n in hirq.exprs(prog.hir[f.id]["body"], "Cast")]
-    chk.ob(len(casts) >= 2, "A15.operator-wiring", "comparison:0-1", f.where(), "a comparison yields 0 or 1 (bool as i32 as f32)", "comparison result is not converted to 0/1")
-    # logical
-    f = _fn(prog, "logical")
-    arms = _arms_by_variant(prog.hir[f.id])
-    for v, op in LOGIC_REF.items():
-        a = arms.get(v)
-        tops = []
-        if a:
-            for n in hirq.exprs(a, "Binary"):
-                if n["op"] in ("And", "Or") or (n["op"] == "Ne" and n["l"].get("k") in ("Binary",) and n["l"].get("op") == "Ne"):
-                    tops.append(n["op"])
-            nz = [n for n in hirq.exprs(a, "Binary") if n["op"] == "Ne" and (hirq.lit_str(n["r"]) is None)]
-        ok = a is not None and tops[:1] == [op]
-        chk.ob(ok, "A15.operator-wiring", f"logical:{v}", f.where(), f"LogicalOp::{v} combines the non-zero-ness of both operands with {op}", f"LogicalOp::{v} is wired to {tops}")
+    """A17 over scripted token streams: each binary level of the grammar is *executed* in the affine evaluator with
+    `peek()` answering from a script (indexed by the number of `advance()` calls), operand parsers as numbered opaque
+    values and `loop`s unrolled; the value returned must be the reference term (left-assoc, conventional operator)."""
+    from sa import algebra as A
+    from sa import linform as L
+
+    def run(fn, operand, toks, words=()):
+        vals = [("some", ("variant", t)) for t in toks] + [("none",)]
+        script = {"peek": {"tick": "advance", "values": vals}}
+        if words or "Symbol" in toks:
+            script["parse"] = {"tick": "advance", "values": [("variant", w) for w in words] + [("err",)]}
+        ev = A.Evaluator(prog, script=script, numbered=(operand,), unroll=8, transparent=("one_number", "into", "fstr", "cloned"))
+        try:
+            sm = ev.summary(EXPR + fn)
+        except Exception as e:  # noqa: BLE001 - a crash of the evaluator is "cannot decide", reported as such
+            return None, f"evaluator failed: {e!r}"
+        return (sm or {}).get("ret"), ""
+
+    def o(name, i):
+        return A.atom(f"{name}{i}", [])
+
+    def nz(x):
+        return A.atom("ne", sorted([x, {}], key=A.canon))
+
+    n = 0
+    cases = []
+    t = lambda i: o("factor", i)  # noqa: E731
+    cases += [
+        ("term", "factor", (), (), t(1), "a lone operand is returned as is"),
+        ("term", "factor", ("Add",), (), L._add(t(1), t(2)), "a + b"),
+        ("term", "factor", ("Sub",), (), L._add(t(1), t(2), -1), "a - b"),
+        ("term", "factor", ("Add", "Sub"), (), L._add(L._add(t(1), t(2)), t(3), -1), "a + b - c, left to right"),
+        ("term", "factor", ("Sub", "Add"), (), L._add(L._add(t(1), t(2), -1), t(3)), "a - b + c, left to right"),
+        ("term", "factor", ("Sub", "Sub"), (), L._add(L._add(t(1), t(2), -1), t(3), -1), "(a - b) - c"),
+    ]
+    for other in ("Mul", "Div", "Mod", "CloseParen", "Comma"):
+        cases.append(("term", "factor", (other,), (), t(1), f"`{other}` is not consumed at the additive level"))
+    pr = lambda i: o("primary", i)  # noqa: E731
+    cases += [
+        ("factor", "primary", (), (), pr(1), "a lone operand is returned as is"),
+        ("factor", "primary", ("Mul",), (), A.mul(pr(1), pr(2)), "a * b"),
+        ("factor", "primary", ("Div",), (), A.atom("div", [pr(1), pr(2)]), "a / b"),
+        ("factor", "primary", ("Mod",), (), A.atom("rem_euclid", [pr(1), pr(2)]), "a % b is the Euclidean remainder"),
+        ("factor", "primary", ("Mul", "Div"), (), A.atom("div", [A.mul(pr(1), pr(2)), pr(3)]), "(a * b) / c, left to right"),
+        ("factor", "primary", ("Div", "Mul"), (), A.mul(A.atom("div", [pr(1), pr(2)]), pr(3)), "(a / b) * c, left to right"),
+        ("factor", "primary", ("Div", "Div"), (), A.atom("div", [A.atom("div", [pr(1), pr(2)]), pr(3)]), "(a / b) / c"),
+    ]
+    for other in ("Add", "Sub", "CloseParen", "Comma"):
+        cases.append(("factor", "primary", (other,), (), pr(1), f"`{other}` is not consumed at the multiplicative level"))
+    tm = lambda i: o("term", i)  # noqa: E731
+    cmp_ref = {
+        "Eq": A.atom("eq", sorted([tm(1), tm(2)], key=A.canon)),
+        "Ne": A.atom("ne", sorted([tm(1), tm(2)], key=A.canon)),
+        "Lt": A.atom("lt", [tm(1), tm(2)]),
+        "Le": A.atom("le", [tm(1), tm(2)]),
+        "Gt": A.atom("lt", [tm(2), tm(1)]),
+        "Ge": A.atom("le", [tm(2), tm(1)]),
+    }
+    for w, ref in cmp_ref.items():
+        cases.append(("comparison", "term", ("Symbol",), (w,), ref, f"a {w.lower()} b compares the two operands in source order and yields 0/1"))
+    cases.append(("comparison", "term", (), (), tm(1), "a lone operand is returned as is"))
+    cases.append(("comparison", "term", ("Add",), (), tm(1), "an arithmetic operator is not consumed at the comparison level"))
+    cases.append(("comparison", "term", ("Symbol",), (), tm(1), "a word that is not a comparison operator is not consumed"))
+    cm = lambda i: o("comparison", i)  # noqa: E731
+    cases += [
+        ("logical", "comparison", (), (), cm(1), "a lone operand is returned as is"),
+        ("logical", "comparison", ("Symbol",), ("And",), A.atom("and", sorted([nz(cm(1)), nz(cm(2))], key=A.canon)), "a and b: both non-zero"),
+        ("logical", "comparison", ("Symbol",), ("Or",), A.atom("or", sorted([nz(cm(1)), nz(cm(2))], key=A.canon)), "a or b: either non-zero"),
+        ("logical", "comparison", ("Symbol",), ("Xor",), A.atom("ne", sorted([nz(cm(1)), nz(cm(2))], key=A.canon)), "a xor b: exactly one non-zero"),
+        ("logical", "comparison", ("Symbol", "Symbol"), ("And", "Or"), A.atom("or", sorted([nz(A.atom("and", sorted([nz(cm(1)), nz(cm(2))], key=A.canon))), nz(cm(3))], key=A.canon)), "(a and b) or c, left to right"),
+        ("logical", "comparison", ("Symbol",), (), cm(1), "a word that is not a logical operator is not consumed"),
+    ]
+    for fn, operand, toks, words, ref, what in cases:
+        n += 1
+        f = _fn(prog, fn)
+        chk.touch(f)
+        got, why = run(fn, operand, toks, words)
+        stream = " ".join(list(words) if words and len(words) == len(toks) else toks) or "(end)"
+        chk.ob(
+            got is not None and A.equal(got, ref),
+            "A17.operator-chains",
+            f"{fn}:{'-'.join(words or toks) or 'end'}{'' if words or not toks or fn not in ('comparison', 'logical') else ':other'}",
+            f.where(),
+            f"{fn}() over the operator stream `{stream}` returns {A.canon(ref)} ({what})",
+            f"{fn}() over the operator stream `{stream}` returns {A.canon(got) if got is not None else 'a value the evaluator cannot follow'} {why}- expected {A.canon(ref)} ({what})",
+        )
+    chk.floor("A17.operator-chains", n, 37, "operator stream evaluated against the reference term")
     # words
     for ty, words in (("ComparisonOp", CMP_WORDS), ("LogicalOp", LOGIC_WORDS)):
         b = prog.body(f"<svgdx::expression::{ty} as std::str::FromStr>::from_str")
